@@ -116,6 +116,9 @@ def memory_groups():
     g('wp_reset.empty', ['C05'], 'h_wp_reset', 'cstl_weak_ptr_reset', 'weak reset of an empty pointer is a no-op', defines=['-DVF_SP_EMPTY'])
     g('share.into_empty', ['C05'], 'h_share', 'cstl_shared_ptr_share', 'share into an empty pointer: hard+1, soft+1, same memory', defines=['-DVF_SHARE_INTO_EMPTY'])
     g('share.empty_src', ['C05'], 'h_share', 'cstl_shared_ptr_share', 'share an empty pointer into an owner: the owner lets go as by reset', defines=['-DVF_SHARE_EMPTY_SRC'])
+    g('share.occupied', ['C05'], 'h_share', 'cstl_shared_ptr_share', 'share into a pointer that owns another allocation: that allocation is let go exactly as by reset (destroyed iff last owner), then hard+1/soft+1 on the shared one', defines=['-DVF_SHARE_OCCUPIED'], timeout=900)
+    g('weak_from.occupied', ['C05'], 'h_weak_from', 'cstl_weak_ptr_from', 'weak-from onto a weak pointer that refers to another allocation: that one loses exactly one weak reference (never an owner; memory untouched), then soft+1', defines=['-DVF_WEAK_FROM_OCCUPIED'], timeout=900)
+    g('lock.occupied', ['C05'], 'h_lock', 'cstl_weak_ptr_lock', 'lock into a pointer that owns another allocation: that one is let go as by reset, then an owner iff an owner still exists', defines=['-DVF_LOCK_OCCUPIED'], unwind=2, timeout=900)
     g('weak_from', ['C05'], 'h_weak_from', 'cstl_weak_ptr_from', 'weak-from: soft+1 only', defines=['-DVF_WEAK_FROM'])
     g('lock', ['C05'], 'h_lock', 'cstl_weak_ptr_lock', 'lock into an empty pointer: an owner iff hard >= 1 (then hard+1/soft+1), else counters restored; lock flag clear again', defines=['-DVF_LOCK'], unwind=2)
     g('lock.empty_wp', ['C05'], 'h_lock', 'cstl_weak_ptr_lock', 'lock of an empty weak pointer into an owner: the owner lets go as by reset', defines=['-DVF_LOCK_EMPTY_WP'], unwind=2)
